@@ -33,10 +33,17 @@ K_SET_FK_OBJ = 'C06:set-fk-by-object-written-before-failing-update'
 K_SET_PARENT_COL = 'C06:inheritable-set-parent-column-written-before-failing-update'
 
 META = {
-    'extractors': [],
+    'extractors': ['pymain', 'pycreate', 'pyinherit', 'pydestroy'],
     'technique': ('Lean 4 proof over a micro-step program model of every write operation (generic interpreter with '
                   'statement counting, fault injection, statement-level rejection, clean-up handlers) + differential '
-                  'correspondence with fault injection at every statement index + state-dump oracle'),
+                  'correspondence with fault injection at every statement index + state-dump oracle; TRANSLATOR tie: the Python '
+                  'AST of _SO_setValue / set (pymain), __init__ / _create / _SO_finishCreate (pycreate), InheritableSQLObject._create '
+                  '(pyinherit) and destroySelf (pydestroy) is translated on every run into deep embeddings whose EXCEPTION-INJECTING '
+                  'reference semantics (Model/PyFail.lean, PyCreate.lean, FailInhX.lean, PyDestroyF.lean: every connection call and every '
+                  'validator call takes its outcome from a schedule indexed by the call position, like the cursor stub of this harness) is '
+                  'proved, by symbolic execution for all states / argument lists / schedules, to end exactly as the hand-compiled '
+                  'micro-step tree does (C06_translated_*_eq_model); C06_frame / _partial / _success_or_unchanged are restated about the '
+                  'translated programs (C06_translated_frame by induction over the syntax of the embedding)'),
     'level_text': ('C06_failed_op_is_noop_syntactic: for every schema, state (no bound on rows / columns / instances / depth), '
                    'operation (attribute assignment, set() with any columns and extra keywords, syncUpdate, create, inheritable create of '
                    'any depth, destroySelf) and injected error index k satisfying the DECIDABLE, purely syntactic condition AtomicSyn '
@@ -47,10 +54,21 @@ META = {
                    'the chain, classes of the chain may have dependents); destroySelf when the failure point lies before the first '
                    'effective statement computed from the dependents list.  C06_nonatomic_cases_exactly spells out the complement '
                    '(= the open known findings), C06_destroy_refused_noop_iff gives both directions for a refused destroySelf, '
-                   'C06_frame / C06_failed_op_is_noop_partial (semantic) and the *_full_FALSE witnesses are kept.'),
-    'level_note': ('Trusted: Lean kernel; the hand-written micro-step program model of main.py / inheritance (tied on every run by three '
+                   'C06_frame / C06_failed_op_is_noop_partial (semantic) and the *_full_FALSE witnesses are kept.  '
+                   'TRANSLATED SOURCE: C06_translated_{setattr_eager,setattr_lazy,set_eager,set_lazy,set_extras_eager,set_extras_lazy,create,'
+                   'destroy,plain_destroy,inheritable_create_level,inheritable_create}_eq_model: the Python functions themselves (translated from '
+                   'the AST on every run), run under an injection schedule, end in the same error, statement log and tables / instances / '
+                   'registrations as the hand-compiled trees, for every schema, state, argument list and schedule; C06_translated_step_eq_model '
+                   '(stepX = step on every tied operation), C06_translated_frame (exactness of the interpreter ghost counter, by induction over '
+                   'the syntax), C06_translated_failed_op_is_noop_partial (AtomicX), _syntactic (AtomicSyn), _success_or_unchanged, and the '
+                   'witnesses replayed through the translated programs (C06_translated_*_full_FALSE).'),
+    'level_note': ('Trusted: Lean kernel; the AST translators vlib/extractors/{pymain,pycreate,pyinherit,pydestroy}.py and the reference semantics '
+                   'of the four embeddings with their stated interfaces (what a connection call / validator / cache call / property setter / '
+                   'select result is: headers of Model/PyFail.lean, PyCreate.lean, FailInhX.lean, FailDestroyX.lean, FailDestroyInhX.lean); the '
+                   'hand-written micro-step program model is now PROVED equal to the translated source for setattr, set, create, destroySelf and '
+                   'the inheritable create (syncUpdate alone stays hand-modelled) and is additionally tied on every run by three '
                    'correspondence streams: outcome, SQL statement sequence and full post-state, for the uninjected call and for an error '
-                   'at every statement index); statement-level atomicity of SQLite; no signal listeners; cacheValues=True. '
+                   'at every statement index; statement-level atomicity of SQLite; no signal listeners; cacheValues=True. '
                    'Open known findings (non-atomic failures of the current code) are reported with stable keys; the keys of the three repaired ones (a587e1a, 0470de1, bf075e4) are still emitted if the damage shows up again.'),
     'rule': ('case = (registry order variant, history of operations building the state, operation under test); every case is '
              'run uninjected to measure its statement count n and then re-run from a rebuilt identical state with an error '
@@ -63,7 +81,12 @@ META = {
                  'signal listeners, cacheValues=False, transactions (autoCommit off) are outside the model',
                  'an exception raised by the application\'s own property setter inside set() is outside the property (counted, not reported)',
                  'after every failed call the oracle also checks that each held live instance is still the very object the cache hands out (tryGet is inst, both directions) and re-fetches it with get()'],
-    'assumptions': ['sqlite_sequence (AUTOINCREMENT counters) is not application data: ids consumed by a failed create are not compared',
+    'assumptions': ['translated source: values are identified across from_python / to_python (the hand model has one value per column); every column has both validators; '
+                    '_SO_createValues is a dict up to order; the inheritable create is tied in its own world with SQLObject._create and _parent.destroySelf() as interface '
+                    'calls equal to the hand trees (each of which is proved equal to its translated source separately); create is tied for keyword lists of plain columns '
+                    '(no ForeignKey-by-object keyword, no connection= keyword); _init / _SO_selectInit are an interface call (SELECT + reload; translated and proved for C05); '
+                    'RecursionError of a cascade cycle = fuel exhaustion',
+                    'sqlite_sequence (AUTOINCREMENT counters) is not application data: ids consumed by a failed create are not compared',
                     'the injected error is single-shot: statements after the k-th are executed normally',
                     'AtomicSyn is sufficient, not necessary: a failed call outside it may still be a no-op (destroySelf failing inside a nested cascade before its first effect; inheritable victims after statement 1); the harness counts these (input_distribution: in the gap, no-op)',
                     'C06_destroy_refused_noop_iff (both directions) is proved for registries whose classes before the first refusing one hold only cascade=False keys to the victim; with null / cascade keys before it only the direction AtomicSyn => no-op is proved',
